@@ -8,5 +8,6 @@ python3 tools/gen.py --check
 python3 tools/rewrite_repo.py
 cd mc
 cargo build --release --offline -q 2>&1 | grep -E '^(error|warning: unused)' -A8 || true
-test -x /verif/target/release/mc
-/verif/target/release/mc selftest
+cd ..
+test -x target/release/mc
+target/release/mc selftest
